@@ -30,6 +30,58 @@ REFUSE = ['refuse_gc9107_k2', 'refuse_rm67162_k2', 'refuse_ili9486rgb565_k0']
 
 
 PROPS = {
+    'C01': {
+        'level_text': "Unbounded proof of the address arithmetic, partial coverage of entry points: Verus proves for every Model, size, offset, orientation and in-bounds rectangle that set_address_window sends CASET/RASET whose addresses, decoded by a MIPI-DCS controller under the MADCTL byte the driver holds (exchange, then mirror), are exactly the cells named by rotate-clockwise / mirror / shift (lemma_mapping_places_pixels), with no overflow, and that set_pixel, set_pixels and fill_solid frame their burst with that window (fill_solid: the clip of the rectangle, one encoded colour per point). Kani proves the same end to end for set_pixel on framebuffers 1x1, 240x320, 320x240, 65535x65535 over all configurations and points. Pixel *content order* of set_pixels / fill_contiguous / draw_iter is covered by C03/C04 (bounded), transports by C05-C07.",
+        'level_note': "Trusted definition: how the controller decodes MV/MX/MY (vf::ctrl_phys, twin support.rs::oracle_ctrl_phys) - the reading the repo's own draw_memory_mapping test encodes. Entry points draw_iter / fill_contiguous / clear are covered only through the bounded harnesses of C02-C04; the `nobatch` configuration is checked by Kani only.",
+        'technique': 'Verus contracts + geometry lemma generic in Model/transport; Kani complete set_pixel harness per framebuffer',
+        'verus': {'cfgs': ['default'], 'fns': [r'^Display::(set_address_window|set_pixels|set_pixel|fill_solid|size)$', r'^options::ModelOptions::display_size$', r'^options::orientation::MemoryMapping::from(_orientation)?$', r'^options::orientation::Rotation::is_(horizontal|vertical)$', r'^vf::lemma_mapping_places_pixels$', r'^dcs::set_(column|page)_address::', r'^dcs::InterfaceExt::write_(command|raw)$']},
+        'kani': {'files': ['root.rs'], 'groups': [{'quick': ['c01_set_pixel_240x320', 'c01_set_pixel_1x1'], 'thorough': ['c01_set_pixel_320x240', 'c01_set_pixel_max'], 'jobs': 8}]},
+        'pairs': {r'set_address_window|set_pixel|lemma_mapping|MemoryMapping|display_size': ['c01_set_pixel_240x320', 'c01_set_pixel_1x1']},
+        'functions': ['Display::{set_address_window,set_pixels,set_pixel}', 'DrawTarget::fill_solid', 'OriginDimensions::size', 'ModelOptions::display_size', 'MemoryMapping::from_orientation', 'SetColumnAddress/SetPageAddress'],
+        'assumptions': ['controller decode of MADCTL bits (trusted oracle)', 'Interface trait contract for generic transports', 'pixel content/order of streams: see C03/C04 (bounded)'],
+    },
+    'C09': {
+        'level_text': "Unbounded proof, generic in the Model: Verus proves on the real Builder::init that a zero or oversize width/height yields InvalidDisplaySize, a fitting size with offset+size beyond the framebuffer yields InvalidDisplayOffset (mathematical integers: the u32 arithmetic cannot wrap), the delay source is unused on rejection, a fitting window is never rejected as a size/offset error, and success implies the window fits and establishes the Display invariant. Kani proves for framebuffers 1x1, 240x320, 320x240, 65535x65535 over all u16^4 and with/without reset pin that init succeeds exactly when the window fits and that reset pin, delay source and bus are untouched on rejection (shared operation counter).",
+        'level_note': "'Nothing touched on rejection' for the consumed builder's pin and bus is observable only through mocks: decided by Kani per instantiation; Verus states it for the delay source (a &mut parameter). Success additionally needs a model that accepts the interface kind and a fault-free bus.",
+        'technique': 'Verus contract on Builder::init generic in M; Kani complete harness per framebuffer size',
+        'verus': {'cfgs': ['default'], 'fns': [r'^builder::Builder::init$', r'^builder::InitError::from$', r'^models::ModelInitError::from$']},
+        'kani': {'files': ['builder.rs'], 'groups': [{'quick': ['c09_init_1x1', 'c09_init_240x320', 'c09_init_max'], 'thorough': ['c09_init_320x240'], 'jobs': 8}]},
+        'pairs': {r'Builder::init': ['c09_init_240x320', 'c09_init_1x1', 'c09_init_max']},
+        'functions': ['Builder::init', 'From<ModelInitError> for InitError'],
+        'assumptions': ['Model trait contract for third-party models', 'hypothesis of the Verus contract: the transport can carry one pixel (capacity >= words per pixel)'],
+    },
+    'C13': {
+        'level_text': "Unbounded proof over histories by invariant: Verus proves (generic Model/transport) that Builder::init leaves the flag false with the controller awake, that sleep / wake send exactly 0x10 / 0x11, set the flag accordingly, leave it unchanged on error and let at least 120 ms of delay elapse, and that every successful Display method preserves 'flag == sleep state decoded from the bus trace' (sleep_inv; the decoder vf::ctrl folds every command sent). Kani proves the induction step on the compiled code with a decoding mock and a shared timeline: flag == controller state after any of six operations from any consistent state with optional bus fault, delay after the command, commands >= 120 ms apart; init harnesses assert the base case for all 14 models.",
+        'level_note': "`unsafe fn dcs()` (raw access) is outside the property. Virtual time. After a failed bus operation the controller state is unknown; the flag then still equals the last successful sleep/wake.",
+        'technique': 'Verus invariant (sleep_inv) over a trace decoder + Kani induction-step harness with timeline',
+        'verus': {'cfgs': ['default'], 'fns': [r'^Display::(sleep|wake|is_sleeping|set_orientation|set_pixel|set_pixels|set_address_window|set_vertical_scroll_region|set_vertical_scroll_offset|set_tearing_effect|fill_solid)$',
+                                               r'^builder::Builder::init$', r'^vf::lemma_ctrl_(push|px_pushed)$']},
+        'kani': {'files': ['root.rs', 'builder.rs'], 'groups': [{'quick': ['c13_step_preserves_sleep_invariant', 'c09_init_240x320'] , 'thorough': INIT_QUICK, 'jobs': 12}]},
+        'pairs': {r'sleep|wake': ['c13_step_preserves_sleep_invariant']},
+        'functions': ['Display::{sleep,wake,is_sleeping}', 'every &mut Display method (invariant preservation)', 'Builder::init'],
+        'assumptions': ['virtual time', 'Interface trait contract for generic transports'],
+    },
+    'C12': {
+        'level_text': "Fault enumeration by symbolic index, complete on loop-free units: Kani fails the k-th low-level operation (k symbolic) of every Display call (sleep, wake, set_orientation, set_pixel, scroll region/offset, tearing effect, fill_solid) and of Builder::init for each built-in model (reset-pin and bus faults), and proves: Err is returned with the variant naming the source (InitError::ResetPin vs Interface; ParallelError::Wr/Bus/Dc on send_word; bus-cache cleared on a failed pin), exactly k+1 operations were issued (nothing after the failing one), no panic, driver state stays consistent and a following set_pixel is placed correctly. Verus proves for every Display method and every model init, generic in the transport, that Err implies the trace ends in the fault (faulted) and options / address mode / sleep flag are unchanged.",
+        'level_note': "Fault positions inside the data-dependent loops of the two transports (send_pixels, send_repeated_pixel) are only covered by the bounded transport harnesses (C06/C07). Quick tier: 4 model inits; thorough: all 14.",
+        'technique': 'Kani symbolic fault index on loop-free units + Verus Err-postconditions',
+        'verus': {'cfgs': ['default'], 'fns': [r'^Display::(sleep|wake|set_orientation|set_pixel|set_pixels|set_address_window|set_vertical_scroll_region|set_vertical_scroll_offset|set_tearing_effect|fill_solid)$',
+                                               r'^models::\w+::\w+::init$', r'^models::ili9\d\dx::init_common$', r'^builder::Builder::init$', r'^dcs::InterfaceExt::write_(command|raw)$']},
+        'kani': {'files': ['root.rs', 'builder.rs', 'parallel.rs'], 'groups': [{'quick': ['c12_display_call_fault', 'c12_init_fault_st7789', 'c12_init_fault_ili9341rgb565', 'c12_init_fault_gc9107', 'c12_init_fault_ili9486rgb565',
+                                                      'c07_send_word_latches_word', 'c07_set_value_step_8'],
+                             'thorough': ['c12_init_fault_' + m for m in MODELS if m not in ('st7789', 'ili9341rgb565', 'gc9107', 'ili9486rgb565')] + ['c07_set_value_step_16'], 'jobs': 12}]},
+        'functions': ['every Display method', 'Builder::init', 'Model::init x14', 'ParallelInterface::send_word', 'Generic8BitBus/Generic16BitBus::set_value'],
+        'assumptions': ['faults inside transport loops: bounded only (see C06/C07)', 'SPI transport variants: see C06'],
+    },
+    'C05': {
+        'level_text': "Complete proof over every colour value: Kani runs the real conversion functions through the real embedded-graphics-core code for all 65 536 Rgb565 and all 262 144 Rgb666 values (two bytes MSB first / one 16-bit word / three left-aligned bytes; decoding returns the colour), proves that a solid fill and a per-pixel stream encode identically on every bus width the type supports, and that the COLMOD codes derived from the colour types are 0x55 / 0x66; the per-model COLMOD announcement is part of the C11 harnesses. Verus proves the three send_repeated_pixel impls and fill_solid emit Px(count x enc(colour)) with enc the property's encoding.",
+        'level_note': "The Verus contracts of the three conversion functions are external_body (e-g ToBytes/RgbColor are outside Verus' reach) and are exactly what the Kani harnesses discharge. rgb565_to_u16 uses native-endian bytes both ways: endianness-independent, checked on the host.",
+        'technique': 'Kani full-domain harnesses through the real e-g code; Verus contracts on the pixel-format trait',
+        'verus': {'cfgs': ['default'], 'fns': [r'Rgb565::send_repeated_pixel$', r'Rgb666::send_repeated_pixel$', r'^Display::fill_solid$', r'^dcs::set_pixel_format::']},
+        'kani': {'files': ['interface.rs'], 'groups': [{'quick': ['c05_rgb565_all_values', 'c05_rgb666_all_values', 'c05_fill_and_stream_encode_identically', 'c05_bpp_from_rgb_color'], 'jobs': 4}]},
+        'functions': ['rgb565_to_bytes', 'rgb565_to_u16', 'rgb666_to_bytes', 'InterfacePixelFormat impls x3', 'BitsPerPixel::from_rgb_color', 'PixelFormat::{with_all,as_u8}'],
+        'assumptions': ['per-model COLMOD vs colour type: C11 harnesses (assertion tagged C11)'],
+    },
     'C10': {
         'level_text': "Unbounded proof by representation invariant: Verus proves set_orientation (generic Model/transport) sends exactly one 0x36 whose byte is the MIPI encoding of (kept colour order, new orientation, kept refresh order), stores the new orientation and re-establishes Display::wf (madctl == encoding of options, window fits the framebuffer), on which every observer and drawing contract depends - so any history of calls is covered by induction. Kani cross-checks reported orientation/size/bounding box, equality with a freshly built state and placement of a following set_pixel for framebuffers 240x320 and 65535x65535, all options symbolic.",
         'level_note': "Assumes the Interface trait contract for third-party transports. 'Behaves as built with that orientation' is equality of the abstract state (options, madctl) that all other contracts depend on; drawing programs are covered through those contracts (C01-C04), not enumerated.",
@@ -38,16 +90,18 @@ PROPS = {
                   'fns': [r'^Display::(set_orientation|orientation|canary_wf)$', r'^graphics::Display::size$', r'^options::ModelOptions::display_size$',
                           r'^dcs::set_address_mode::SetAddressMode::(with_orientation|from|fill_params_buf|instruction)$',
                           r'^vf::lemma_(with_orientation_replaces|madctl_setters|field_bits|bits_u8)$']},
-        'kani': {'groups': [{'quick': ['c10_set_orientation_240x320'], 'thorough': ['c10_set_orientation_max']}]},
+        'kani': {'files': ['root.rs'], 'groups': [{'quick': ['c10_set_orientation_240x320'], 'thorough': ['c10_set_orientation_max']}]},
         'pairs': {r'set_orientation|orientation$|size$': ['c10_set_orientation_240x320']},
         'functions': ['Display::set_orientation', 'Display::orientation', 'OriginDimensions::size', 'ModelOptions::display_size', 'SetAddressMode::with_orientation'],
         'assumptions': ['Interface trait contract (generic DI)', 'Kani instantiations: framebuffers 240x320 and 65535x65535; Verus: every Model'],
     },
     'C11': {
-        'level_text': "Complete proof per instantiation: for each of the 14 built-in model types x 3 interface kinds, Kani symbolically executes the real Builder::init and the model's init sequence (loop-free) with ALL options symbolic (colour order, orientation, inversion, refresh order, every size/offset init accepts, with and without reset pin) against a decoding Interface mock on a shared virtual timeline, and proves: awake, display on, last MADCTL == MIPI encoding of the options, COLMOD matches the colour type, inversion as chosen, no memory write / pixel call, >= 120 ms of delay after sleep-out before return; unsupported pairings return UnsupportedInterface with zero model commands; every pairing supported on the unchanged tree stays supported. Quick tier: 17 pairings (every model + the 3 refused pairings); thorough: all 42.",
+        'level_text': "Two layers. (1) Unbounded, generic in the transport: Verus verifies the real text of all 14 model init functions (and the two shared init_common helpers) against the Model trait contract init_post: whatever was sent before, after Ok the controller decoded from the bus trace is awake, switched on, holds MADCTL == MIPI encoding of the options (== the returned/cached value), an interface pixel format was announced, inversion as chosen, no memory write or pixel burst and no further reset happened, total delay >= 120 ms; a refusal is UnsupportedInterface with nothing sent; an Interface error ends the trace with the fault. (2) Complete per instantiation: for each of the 14 built-in model types x 3 interface kinds, Kani symbolically executes the real Builder::init and the model's init sequence (loop-free) with ALL options symbolic (colour order, orientation, inversion, refresh order, every size/offset init accepts, with and without reset pin) against a decoding Interface mock on a shared virtual timeline, and proves: awake, display on, last MADCTL == MIPI encoding of the options, COLMOD matches the colour type, inversion as chosen, no memory write / pixel call, >= 120 ms of delay after sleep-out before return; unsupported pairings return UnsupportedInterface with zero model commands; every pairing supported on the unchanged tree stays supported. Quick tier: 17 pairings (every model + the 3 refused pairings); thorough: all 42.",
         'level_note': "Per built-in model (finite set, enumerated; the driver checks that the harness list equals the model types found in src/models/*.rs). Third-party Model impls: not covered (trait contract assumed). Timing is virtual: sum of the arguments passed to the delay source. MIPI encoding oracle = support.rs::oracle_madctl (twin of vf::spec_madctl, proved equal to the code's byte in C14).",
         'technique': 'Kani loop-free symbolic execution of the real init code per model x kind, all options symbolic',
-        'kani': {'groups': [{'quick': INIT_QUICK + REFUSE, 'thorough': INIT_REST, 'jobs': 12}]},
+        'verus': {'cfgs': ['default'], 'fns': [r'^models::\w+::\w+::init$', r'^models::ili9\d\dx::init_common$', r'^builder::Builder::init$', r'^vf::lemma_ctrl_push$',
+                                               r'^dcs::set_address_mode::SetAddressMode::from$', r'^dcs::set_invert_mode::', r'^dcs::set_pixel_format::SetPixelFormat::']},
+        'kani': {'files': ['builder.rs'], 'groups': [{'quick': INIT_QUICK + REFUSE, 'thorough': INIT_REST, 'jobs': 12}]},
         'models_guard': True,
         'functions': ['Builder::init', 'Model::init for the 14 built-in models', 'ili934x::init_common', 'ili948x::init_common', 'SetAddressMode::from', 'InterfaceExt::{write_command,write_raw}'],
         'assumptions': ['virtual time: >=120 ms means the sum of delay arguments', 'external Model implementations are not covered',
@@ -57,7 +111,8 @@ PROPS = {
         'level_text': "Complete proof per instantiation (same harness family as C11, assertions tagged C17): through the real Builder::init for every built-in model x interface kind x all option sets, with a reset pin the very first low-level operation is rst low, >= 10 us of delay pass before rst high, the pin is written exactly twice and left high, no 0x01 is sent and no bus operation precedes the rising edge; without a pin the first bus operation is the parameterless 0x01, sent exactly once. Ordering across pin / delay / bus is observed on one shared operation counter.",
         'level_note': "Virtual time; pin/bus/delay mocks share one operation counter (cross-object order is decided here, not in Verus). No-pin path: rst == None with an inhabited pin type (Kani ICE on NoResetPin).",
         'technique': 'Kani loop-free symbolic execution of Builder::init with a shared operation timeline',
-        'kani': {'groups': [{'quick': INIT_QUICK, 'thorough': INIT_REST, 'jobs': 12}]},
+        'verus': {'cfgs': ['default'], 'fns': [r'^builder::Builder::init$']},
+        'kani': {'files': ['builder.rs'], 'groups': [{'quick': INIT_QUICK, 'thorough': INIT_REST, 'jobs': 12}]},
         'models_guard': True,
         'functions': ['Builder::init', 'Model::init (14 built-in models)'],
         'assumptions': ['virtual time', 'no-reset-pin path uses an inhabited stand-in type for NoResetPin'],
@@ -70,7 +125,7 @@ PROPS = {
                   'fns': [r'^dcs::set_address_mode::SetAddressMode::(new|with_color_order|with_orientation|with_refresh_order|from|fill_params_buf|instruction)$',
                           r'^vf::lemma_(bits_u8|field_bits|madctl_setters)$',
                           r'^options::orientation::MemoryMapping::from(_orientation)?$']},
-        'kani': {'groups': [{'quick': ['c14_madctl_all_inputs', 'c14_setters_any_start_any_order', 'c14_fill_params']}]},
+        'kani': {'files': ['set_address_mode.rs'], 'groups': [{'quick': ['c14_madctl_all_inputs', 'c14_setters_any_start_any_order', 'c14_fill_params']}]},
         'pairs': {r'SetAddressMode::': ['c14_madctl_all_inputs', 'c14_setters_any_start_any_order', 'c14_fill_params'],
                   r'MemoryMapping::': ['c14_madctl_all_inputs']},
         'complete_pairs': [r'SetAddressMode::', r'MemoryMapping::'],
@@ -86,7 +141,7 @@ PROPS = {
                   'fns': [r'^options::orientation::Rotation::(degree|try_from_degree|rotate|is_horizontal|is_vertical)$',
                           r'^options::orientation::Orientation::(new|rotate|flip_horizontal|flip_vertical|flip_horizontal_absolute|flip_vertical_absolute)$',
                           r'^vf::lemma_(rotate_geometry|flip_h_geometry|flip_v_geometry|orientation_determined|orientation_group|rot_add_table|rot_add_assoc)$']},
-        'kani': {'groups': [{'quick': ['c15_try_from_degree_all_i32', 'c15_rotate_flip_geometry', 'c15_group_laws']}]},
+        'kani': {'files': ['orientation.rs'], 'groups': [{'quick': ['c15_try_from_degree_all_i32', 'c15_rotate_flip_geometry', 'c15_group_laws']}]},
         'pairs': {r'Rotation::': ['c15_try_from_degree_all_i32', 'c15_group_laws'], r'Orientation::': ['c15_rotate_flip_geometry', 'c15_group_laws']},
         'complete_pairs': [r'Rotation::', r'Orientation::'],
         'functions': ['Rotation::{degree,try_from_degree,rotate,is_horizontal,is_vertical}', 'Orientation::{new,rotate,flip_horizontal,flip_vertical}'],
@@ -99,7 +154,7 @@ PROPS = {
         'verus': {'cfgs': ['default'],
                   'fns': [r'^Display::set_vertical_scroll_(region|offset)$', r'^dcs::set_scroll_(area|start)::',
                           r'^dcs::InterfaceExt::write_(command|raw)$', r'^vf::u16_to_be_bytes$']},
-        'kani': {'groups': [{'quick': ['c16_region_h1', 'c16_region_h320', 'c16_region_h65535', 'c16_offset'],
+        'kani': {'files': ['root.rs'], 'groups': [{'quick': ['c16_region_h1', 'c16_region_h320', 'c16_region_h65535', 'c16_offset'],
                              'thorough': ['c16_region_h160', 'c16_region_h480', 'c16_region_h536']}]},
         'pairs': {r'set_vertical_scroll_region': ['c16_region_h1', 'c16_region_h320', 'c16_region_h65535'],
                   r'set_vertical_scroll_offset': ['c16_offset'], r'set_scroll_': ['c16_region_h320', 'c16_offset']},
@@ -114,7 +169,7 @@ PROPS = {
         'level_note': 'Trusted: vstd slice specs (copy_from_slice, range indexing); u16::to_be_bytes wrapper (Kani: all 65536 values); Interface trait contract for generic transports.',
         'technique': 'Verus trait contracts on extracted code incl. macro output; Kani full-domain harnesses',
         'verus': {'cfgs': ['default'], 'fns': DCS_FNS},
-        'kani': {'groups': [{'quick': ['c18_be16_all_u16', 'c18_caset_raset_all', 'c18_scroll_all', 'c18_enums_all', 'c18_write_raw_passthrough']}]},
+        'kani': {'files': ['dcs.rs'], 'groups': [{'quick': ['c18_be16_all_u16', 'c18_caset_raset_all', 'c18_scroll_all', 'c18_enums_all', 'c18_write_raw_passthrough']}]},
         'pairs': {r'^dcs::': ['c18_caset_raset_all', 'c18_scroll_all', 'c18_enums_all', 'c18_write_raw_passthrough'], r'u16_to_be_bytes': ['c18_be16_all_u16']},
         'complete_pairs': [r'^dcs::set_'],
         'functions': ['every DcsCommand impl: instruction, fill_params_buf (8 parameterised types + 10 macro-generated)', 'InterfaceExt::{write_command,write_raw}'],
